@@ -64,6 +64,32 @@ def id_codec_symmetry(model: Model, run: Run) -> None:
             run.fail(Finding("N6-id-codec-symmetric", c if "pack writes" in problems[0] else tx.envelope.func, problems[0][:100],
                              f"{short(c)}: " + "; ".join(problems) + ": the ID a peer reads is not the ID the session handed out (or the other way round)", ""))
     run.floor("message envelopes compared for the ID codec", n, 9)
+    # ... "no conversion of its own": the local the ID is read into is bound once - by that read - and reaches the constructors as read
+    efi = model.functions.get(tx.envelope.func)
+    import re as _re
+    from ..anchors import reachable as _reachable
+    var0 = _re.sub(r"__\d+$", "", r0.var or "")
+    if efi is not None and var0:
+        # the read may sit in a private helper the envelope decoder was inlined from: the function that binds the local from read_integer
+        for g_ in _reachable(model, efi):
+            if not isinstance(g_.node, ast.Lambda) and any(isinstance(x, (ast.Assign, ast.AnnAssign)) and x.value is not None and
+                                                            any(isinstance(t_, ast.Name) and t_.id == var0 for t_ in (x.targets if isinstance(x, ast.Assign) else [x.target])) and
+                                                            any(isinstance(c_, ast.Call) and isinstance(c_.func, ast.Attribute) and c_.func.attr == "read_integer" for c_ in ast.walk(x.value))
+                                                            for x in ast.walk(g_.node)):
+                efi = g_
+                break
+    r0_var = var0
+    if efi is not None and r0_var:
+        stores = [x for x in ast.walk(efi.node) if (isinstance(x, (ast.Assign, ast.AnnAssign, ast.AugAssign, ast.NamedExpr, ast.For)) and
+                                                    any(isinstance(t_, ast.Name) and t_.id == r0_var and isinstance(t_.ctx, ast.Store)
+                                                        for tt in ([x.target] if not isinstance(x, ast.Assign) else x.targets) for t_ in ast.walk(tt)))]
+        extra = [x for x in stores if not (isinstance(x, (ast.Assign, ast.AnnAssign)) and x.value is not None and
+                                           any(isinstance(c_, ast.Call) and isinstance(c_.func, ast.Attribute) and c_.func.attr == "read_integer" for c_ in ast.walk(x.value)))]
+        run.ob("N6-id-codec-symmetric", not extra, {"decoder": efi.name, "id_local": r0_var, "bindings": len(stores)})
+        if extra:
+            run.fail(Finding("N6-id-codec-symmetric", efi.qualname, norm(extra[0])[:80],
+                             f"{efi.name} changes `{r0_var}` after reading it (`{norm(extra[0])[:60]}`): the ID the session correlates by is not the ID in the bytes - a response "
+                             "carrying an ID nobody issued is matched to an outstanding request", model.loc(efi.module, extra[0])))
     # ... and that writer has one implementation of the content octets (no unsigned shortcut for "small" ids)
     from .c05 import may_raise
     from .c07 import hand_built_integer_content
@@ -80,7 +106,7 @@ def check(model: Model, run: Run) -> None:
     id_codec_symmetry(model, run)
     # a response for an unknown or completed id is refused with ProtocolError - provided building the refusal cannot itself fail
     from .c10 import refusal_text_is_total
-    refusal_text_is_total(model, run, ex, "N6-refusal-is-raised-as-written")
+    refusal_text_is_total(model, run, ex, "N7-refusal-is-raised-as-written")
     # ---- counter discipline ------------------------------------------------
     ws = counter_writers(model)
     run.floor("counter writers", len(ws), 2)
